@@ -332,11 +332,11 @@ class WARCRecorder(object):
 
         journal_filename = self._warc_filename + '-wpullinc'
 
-        with open(journal_filename, 'w') as file:
-            file.write('wpull-journal-version:1\n')
-            file.write('offset:{}\n'.format(before_offset))
-
         try:
+            with open(journal_filename, 'w') as file:
+                file.write('wpull-journal-version:1\n')
+                file.write('offset:{}\n'.format(before_offset))
+
             with open_func(self._warc_filename, mode='ab') as out_file:
                 for data in record:
                     out_file.write(data)
@@ -345,12 +345,14 @@ class WARCRecorder(object):
                 _('Rolling back file {filename} to length {length}.'),
                 filename=self._warc_filename, length=before_offset
             )
-            with open(self._warc_filename, mode='r+b') as out_file:
-                out_file.truncate(before_offset)
+            if os.path.exists(self._warc_filename):
+                with open(self._warc_filename, mode='r+b') as out_file:
+                    out_file.truncate(before_offset)
 
             raise error
         finally:
-            os.remove(journal_filename)
+            if os.path.exists(journal_filename):
+                os.remove(journal_filename)
 
         after_offset = os.path.getsize(self._warc_filename)
 
